@@ -110,10 +110,43 @@ FIXED_SCHEMAS = [
 ]
 
 
+# minimised shapes of past findings and of seeded defects: run first in every codec check
+U70 = [{"type": "fixed", "name": "F%d" % i, "size": 1} for i in range(70)]
+CORPUS_CASES = [
+    ({"type": "record", "name": "N1", "fields": [{"name": "a", "type": ["int", "null"], "default": 10}, {"name": "b", "type": ["null", "string"], "default": None}]}, {"a": None, "b": "x"}),
+    ({"type": "record", "name": "N1", "fields": [{"name": "a", "type": ["int", "null"], "default": 10}]}, {}),
+    ("string", "\u00e9" * 40), ("string", "\U0001F600" * 20), ("string", "\u20ac" * 63), ({"type": "map", "values": "int"}, {"\u00e9" * 33: 1}),
+    (U70, b"\x07"), (U70 + ["null"], None), ({"type": "array", "items": U70[:66] + ["long"]}, [5, b"\x01", -1]),
+    ("double", -0.0), ("float", -0.0), ({"type": "array", "items": "float"}, [-0.0, 0.0, 1e-46, -1e-46]),
+    ({"type": "record", "name": "Node", "fields": [{"name": "v", "type": "long"}, {"name": "next", "type": ["null", "Node"]}]},
+     {"v": 1, "next": {"v": 2, "next": {"next": None, "v": 3, "-type": "Node"}}}),
+    ([{"type": "array", "items": ["long", {"type": "enum", "name": "ns.E3", "symbols": ["A", "B"]}]}, "null"], [("ns.E3", "A"), 4]),
+    ({"type": "record", "name": "R9", "fields": [{"name": "a", "type": {"type": "null"}}, {"name": "b", "type": "int"}]}, {"b": 1}),
+    ([{"type": "record", "name": "A", "fields": [{"name": "x", "type": "int"}, {"name": "y", "type": ["null", "int"], "default": None}]},
+      {"type": "map", "values": ["int", "string"]}], {"x": 1, "-type": "A"}),
+    ([{"type": "record", "name": "A1", "fields": [{"name": "x", "type": {"type": "array", "items": "int"}}]}, {"type": "map", "values": ["int", "string"]}], {"x": [1, 2, 3]}),
+    ([{"type": "int", "logicalType": "zzz"}, "string"], "hello"),
+]
+
+
+def corpus_cases():
+    import fastavro
+    out = []
+    for raw, datum in CORPUS_CASES:
+        for use_raw in (False, True):
+            c = Case()
+            c.raw = json.loads(json.dumps(raw))
+            c.named = {}
+            c.parsed = fastavro.parse_schema(c.raw, c.named)
+            c.datum, c.suffix, c.wopts, c.ropts, c.tag, c.use_raw = datum, b"\x01", {}, {}, "corpus", use_raw
+            out.append(c)
+    return out
+
+
 def gen_cases(ctx, n, hints=True, big=False, ropts_variants=False, wopts_variants=False):
     import fastavro
     rng = ctx.rng
-    cases, rejected, toodeep = [], 0, 0
+    cases, rejected, toodeep = corpus_cases() if hints else [], 0, 0
     pool = []
     for fs in FIXED_SCHEMAS:
         named = {}
